@@ -234,7 +234,7 @@ class Run:
         # optional hooks: a driver file guarded by tag verif_<h> is compiled in only when /repo carries that hook
         if os.path.exists(os.path.join(REPO, "pkg/controllers/provisioning/scheduling/hooks_verif.go")):
             tags += ",verif_h1"
-        p = subprocess.run(["go", "build", "-tags", tags, "-o", out, "./cmd/drv"], cwd=h, env=go_env(),
+        p = subprocess.run(["go", "build", "-trimpath", "-tags", tags, "-o", out, "./cmd/drv"], cwd=h, env=go_env(),
                            stdout=subprocess.PIPE, stderr=subprocess.STDOUT, text=True, timeout=1500)
         if p.returncode != 0:
             raise InfraError("harness build failed:\n" + p.stdout[-4000:])
